@@ -21,6 +21,32 @@ CHECKS = {
         note=TRUST + 'Assumed: NP-RAVEL-MI, NP-UNRAVEL, NP-PROD contracts; integers mathematical (A-INT).',
         technique='AST-generated verification conditions over the real source, discharged by z3 (contract-based deductive verification); bounded native replay',
         design_ref='Part III C01'),
+    'C03': dict(
+        category='proof',
+        text='ravel / wind postconditions (element n of the flattened variable is the value at row-major cell n; '
+             'wind(ravel(x)) == x with grid dimensions restored in convention order and other dimensions untouched; '
+             'ravel(wind(y)) == y for the linear dimension at every position, by axis / negative axis / name; default '
+             'and colliding linear names; refusal of variables on no grid; size mismatch) are proved at Skolem indexes '
+             'for all extents over the real bodies of move_dimensions_to_end, ravel_dimensions, wind_dimension, '
+             'splice_tuple, find_unused_dimension, get_grid_kind, ravel, wind, for every permutation of up to 2 '
+             '(thorough: 3) extra dimensions on 9 convention x grid-kind configurations. Values are an uninterpreted '
+             'sort, so "moved, never altered" holds by construction.',
+        note=TRUST + 'Assumed: NP-RESHAPE (C order), NP-TRANSPOSE, XR-TRANSPOSE, XR-DATAARRAY-CTOR contracts.',
+        technique='AST-generated verification conditions over the real source, Skolem-index array obligations discharged by z3; bounded native replay',
+        design_ref='Part III C03'),
+    'C13': dict(
+        category='proof',
+        text='normalize_depth_variables (real body) is executed symbolically for a strictly monotonic symbolic depth '
+             'axis of any length >= 2, positive attribute {down, up, DOWN, Up, absent}, dimension or auxiliary '
+             'coordinate, bounds absent / data variable / coordinate, all 9 option pairs: every level keeps its '
+             'physical depth (values and attribute agree), requested order holds, data and bounds move with the '
+             'coordinate, unset options leave that aspect untouched, the input dataset is not modified (every '
+             'attribute, encoding and value compared), and a second application changes nothing.',
+        note=TRUST + 'Assumed: A-REAL (negation/comparison of reals), XR-COPY-SHALLOW, XR-ASSIGN, XR-ASSIGN-COORDS, '
+             'XR-ISEL (slice) contracts; with the attribute absent the values share one sign so the documented '
+             'majority guess is determined.',
+        technique='AST-generated verification conditions over the real source discharged by z3 (contract-based deductive verification); bounded native replay',
+        design_ref='Part III C13'),
 }
 
 NOT_YET = 'check not built yet (work in progress, see DESIGN.md)'
